@@ -61,16 +61,31 @@ impl<'a> Class<'a> {
         BaseClasses::new(self.public_super_classes())
     }
 
+    /// Applies `f` to this class and then to its base classes, and returns the first hit.
+    ///
+    /// A super class that cannot be resolved does not stop the search. The first such error is
+    /// reported only if nothing is found.
     fn find_map_self_and_base_classes<T>(
         &self,
         mut f: impl FnMut(&Class<'a>) -> Option<Result<T, TypeMapError>>,
     ) -> Option<Result<T, TypeMapError>> {
         if let Some(r) = f(self) {
-            Some(r)
-        } else {
-            self.base_classes()
-                .find_map(|r| r.and_then(|c| f(&c).transpose()).transpose())
+            return Some(r);
         }
+        let mut first_err = None;
+        for r in self.base_classes() {
+            match r {
+                Ok(c) => {
+                    if let Some(r) = f(&c) {
+                        return Some(r);
+                    }
+                }
+                Err(e) => {
+                    first_err.get_or_insert(e);
+                }
+            }
+        }
+        first_err.map(Err)
     }
 
     pub fn is_derived_from(&self, base: &Class) -> bool {
@@ -81,20 +96,33 @@ impl<'a> Class<'a> {
 
     fn is_derived_from_pedantic(&self, base: &Class) -> Option<Result<(), TypeMapError>> {
         if self == base {
-            Some(Ok(()))
-        } else {
-            self.base_classes()
-                .find_map(|r| r.map(|c| (&c == base).then_some(())).transpose())
+            return Some(Ok(()));
         }
+        let mut first_err = None;
+        for r in self.base_classes() {
+            match r {
+                Ok(c) if &c == base => return Some(Ok(())),
+                Ok(_) => {}
+                Err(e) => {
+                    first_err.get_or_insert(e);
+                }
+            }
+        }
+        first_err.map(Err)
     }
 
     pub fn common_base_class(&self, other: &Class<'a>) -> Option<Result<Class<'a>, TypeMapError>> {
         // quadratic, but the inheritance chain should be short
-        self.find_map_self_and_base_classes(|cls| {
-            other
-                .is_derived_from_pedantic(cls)
-                .map(|r| r.map(|()| cls.clone()))
+        let mut other_err = None;
+        self.find_map_self_and_base_classes(|cls| match other.is_derived_from_pedantic(cls) {
+            Some(Ok(())) => Some(Ok(cls.clone())),
+            Some(Err(e)) => {
+                other_err.get_or_insert(e);
+                None
+            }
+            None => None,
         })
+        .or_else(|| other_err.map(Err))
     }
 
     pub fn attached_class(&self) -> Option<Result<Class<'a>, TypeMapError>> {
@@ -161,7 +189,10 @@ impl<'a> TypeSpace<'a> for Class<'a> {
     }
 
     fn get_type(&self, name: &str) -> Option<Result<NamedType<'a>, TypeMapError>> {
+        // An unresolved super class must not hide the enclosing scopes (resolve_type() goes on
+        // to the lexical parents only if this returns None), so it isn't reported here.
         self.find_map_self_and_base_classes(|cls| cls.get_type_no_super(name))
+            .filter(|r| r.is_ok())
     }
 
     fn lexical_parent(&self) -> Option<&ParentSpace<'a>> {
